@@ -32,6 +32,7 @@ type snap struct {
 }
 
 type G struct {
+	nbuf int
 	h     *hx.H
 	focus string
 	root  string
@@ -226,6 +227,15 @@ func (g *G) plotRun(dir string, pk *pocec.PublicKey, bl int, wa, wb []int, snaps
 		}
 		return forced, true
 	}
+	// the buffer through which pass B reads table A: sizes that the record pairs do not divide (the code's 64 MiB
+	// buffer is never refilled at these bit lengths; at 3- and 5-byte records it is refilled mid-pair)
+	g.nbuf++
+	if sz := []int{0, 1031, 4099, 17, 263, 64}[g.nbuf%6]; sz > 0 {
+		massdb_v1.VerifReadBufSize = func() (int, bool) { return sz, true }
+	} else {
+		massdb_v1.VerifReadBufSize = nil
+	}
+	defer func() { massdb_v1.VerifReadBufSize = nil }()
 	mdbi, err := massdb_v1.OpenDB(dir, int64(0), pk, bl)
 	if err != nil {
 		return nil, "open-error:" + err.Error(), nil, nil
